@@ -332,7 +332,14 @@ Section Shapes.
     end.
 
   (* C11: a path of type string in a position where check_single_expression looks at it
-     (operand of == != And Or !, or the whole guard) *)
+     (operand of == != And Or !, or the whole guard), or a parenthesised string operand of
+     < <= > >= (expression_is_string does not look through parentheses) *)
+  Definition paren_string (vars : list (name * vtype)) (loopvars : list name) (e : expr) : bool :=
+    match e with
+    | EParen _ => match expr_type P vars loopvars e with Some TyStr => true | _ => false end
+    | _ => false
+    end.
+
   Fixpoint string_path_checked (vars : list (name * vtype)) (loopvars : list name) (e : expr) : bool :=
     match e with
     | EPath v es =>
@@ -342,7 +349,8 @@ Section Shapes.
       end
     | ENot e1 | EParen e1 => string_path_checked vars loopvars e1
     | EBin o l r =>
-      if is_cmp o || is_arith o then false
+      if is_cmp o then paren_string vars loopvars l || paren_string vars loopvars r
+      else if is_arith o then false
       else string_path_checked vars loopvars l || string_path_checked vars loopvars r
     | _ => false
     end.
